@@ -7,6 +7,7 @@ from typing import Dict, List, Sequence, Tuple
 # rule id -> module name under mverif.rules
 RULE_MODULES: Dict[str, str] = {
     "R1": "r01_waitset",
+    "R2": "r02_bound",
 }
 
 # property -> list of obligation-id prefixes ("R1" selects every obligation of R1,
